@@ -37,11 +37,11 @@ def _history(subject):
     detach = st.fixed_dictionaries({'op': st.just('detach'), 'p': pref, 'rep': st.integers(0, 6)})
     detach_k = st.fixed_dictionaries({'op': st.just('detach'), 'k': st.integers(0, 7), 'rep': st.integers(0, 6)})
     interest = st.fixed_dictionaries({'op': st.just('interest'), 'n': st.lists(st.sampled_from(ALPHABET), min_size=0, max_size=4),
-                                      'life': st.sampled_from([None, 5, 50, 4000]), 'mode': st.sampled_from(['await', 'task'])})
+                                      'life': st.sampled_from([None, 0, 1, 5, 50, 4000]), 'mode': st.sampled_from(['await', 'task'])})
     interest_k = st.fixed_dictionaries({'op': st.just('interest'), 'under': st.integers(0, 7),
                                         'ext': st.lists(st.sampled_from(ALPHABET), max_size=2),
-                                        'life': st.sampled_from([None, 5, 50, 4000]), 'mode': st.sampled_from(['await', 'task'])})
-    adv = st.fixed_dictionaries({'op': st.just('adv'), 'ms': st.sampled_from([0, 1, 4, 5, 6, 49, 50, 51, 3999, 4000, 4001])})
+                                        'life': st.sampled_from([None, 0, 1, 5, 50, 4000]), 'mode': st.sampled_from(['await', 'task'])})
+    adv = st.fixed_dictionaries({'op': st.just('adv'), 'ms': st.sampled_from([0, 1, 2, 4, 5, 6, 49, 50, 51, 3999, 4000, 4001])})
     reply = st.fixed_dictionaries({'op': st.just('reply'), 'k': st.integers(0, 7)})
     ops = [attach, attach, detach, detach_k, interest, interest_k, interest_k, adv]
     if subject == 'v2':
